@@ -13,7 +13,10 @@
 (*   Dev_NoC1       input is UTF-8: there are no 8-bit C1 controls           *)
 (*   Dev_NonAscii   a scalar >= 80 inside an escape/control sequence cancels *)
 (*                  it; whether that scalar is then printed is not           *)
-(*                  constrained ("maybe" item)                               *)
+(*                  constrained ("maybe" item).  In the header of a device   *)
+(*                  control string it may instead be ignored, be taken as    *)
+(*                  the final character, or make the string an ignored one   *)
+(*                  (FeedSet follows every one of these consistently)        *)
 (* Input symbols are Unicode scalar values (a raw invalid byte b is the      *)
 (* symbol b with the raw flag, which the parser cannot distinguish).         *)
 (* The parser is a functional core: Feed(p, x) is the transition function.   *)
@@ -36,7 +39,7 @@ ApcI(d)        == [t |-> "apc", d |-> d]
 
 Init0 == [st |-> "ground", inter |-> <<>>, pbuf |-> <<>>, osc |-> <<>>,
           dcs |-> [i |-> <<>>, p |-> <<>>, f |-> 0, d |-> <<>>], apc |-> <<>>,
-          sup |-> "no", lone |-> FALSE, out |-> <<>>]
+          sup |-> "no", lone |-> FALSE, ctx |-> "", out |-> <<>>]
 
 Emit(p, it) == [p EXCEPT !.out = Append(@, it)]
 
@@ -105,8 +108,20 @@ Ground(p, x) == IF IsC0Exec(x) THEN Emit(p, C0I(x)) ELSE Emit(p, PrintI(x))
 (* cancelled; the scalar itself is a "maybe" print (Dev_NonAscii).           *)
 Cancel(p, x) == To(Emit(p, MaybeI(x)), "ground")
 
+(* Ext_SuppressST, "suppression of the ST that ends a string": a control     *)
+(* string is ended by the ESC that arrives while it is being received; when  *)
+(* the very next character is "\" the two are the string's terminator and    *)
+(* are not delivered.  sup is meaningful in the escape state only and says   *)
+(* whether the ESC that led there ended a string ("yes"), cut a device       *)
+(* control string short in its header, where no string had begun yet         *)
+(* ("either": both readings are accepted), or neither ("no").  Every other   *)
+(* ESC \ - after a string that was ended by BEL, CAN, SUB, after a cancelled *)
+(* sequence, after a second ESC - is a complete escape sequence of its own   *)
+(* and is delivered.                                                         *)
+(* ctx is diagnosis only: the situation the next ESC \ finds itself in, put  *)
+(* into the prescription as a marker (matches nothing) before that ESC \.    *)
 Escape(p0, x) ==
-  LET p == [p0 EXCEPT !.sup = "no"] IN       \* whatever else happens, the suppression window closes
+  LET p == [p0 EXCEPT !.sup = "no", !.ctx = ""] IN   \* whatever else happens, the suppression window closes
   IF IsC0Exec(x) THEN                         \* C0 executes, still in escape; whether a following
      [Emit(p0, C0I(x)) EXCEPT !.sup = IF p0.sup = "no" THEN "no" ELSE "either"]   \* "\" is still "the ST" is not prescribed
   ELSE IF In(x, 32, 47) THEN To(Collect(p, x), "escInter")
@@ -119,7 +134,8 @@ Escape(p0, x) ==
   ELSE IF x = 92 THEN
        IF p0.sup = "yes" THEN To(p, "ground")                \* Ext_SuppressST
        ELSE IF p0.sup = "either" THEN To(Emit(p, OptI(<<EscI(p.inter, x)>>)), "ground")
-       ELSE To(EscDispatch(p, x), "ground")
+       ELSE LET q == IF p0.ctx = "" THEN p ELSE Emit(p, [t |-> "mark", tag |-> p0.ctx])
+            IN To(EscDispatch(q, x), "ground")
   ELSE IF In(x, 48, 126) \/ x = 127 THEN To(EscDispatch(p, x), "ground")   \* 7F: Ext_AltBs
   ELSE Cancel(p, x)
 
@@ -170,6 +186,17 @@ CsiIgnore(p, x) ==
   ELSE IF x < 128 THEN p
   ELSE Cancel(p, x)
 
+(* A non-ASCII scalar in the header of a device control string: no standard  *)
+(* has an entry.  The function follows "the sequence is cancelled"; FeedSet  *)
+(* adds the other consistent readings.  Whichever is taken, it is taken for  *)
+(* good: once cancelled no string is pending and a later ESC \ is a sequence *)
+(* of its own.                                                               *)
+CancelDcs(p, x) == [Cancel(p, x) EXCEPT !.ctx = "after-abandoned-dcs-header"]
+DcsHeadAlts(p, x) == {CancelDcs(p, x),                       \* cancelled
+                      p,                                      \* ignored, still in the header
+                      ToStr(p, "dcsIgnore"),                  \* the string is malformed: ignored up to its end
+                      ToStr(Hook(p, x), "dcsPass")}           \* taken as the final character
+
 DcsEntry(p, x) ==
   CASE IsC0Exec(x) \/ x = 127 -> p
     [] In(x, 32, 47)  -> To(Collect(p, x), "dcsInter")
@@ -177,7 +204,7 @@ DcsEntry(p, x) ==
     [] In(x, 48, 57) \/ x = 59 -> To(Param(p, x), "dcsParam")
     [] In(x, 60, 63)  -> To(Collect(p, x), "dcsParam")
     [] In(x, 64, 126) -> ToStr(Hook(p, x), "dcsPass")
-    [] OTHER          -> [To(p, "unconstrained") EXCEPT !.sup = "either"]
+    [] OTHER          -> CancelDcs(p, x)
 
 DcsParam(p, x) ==
   CASE IsC0Exec(x) \/ x = 127 -> p
@@ -185,14 +212,14 @@ DcsParam(p, x) ==
     [] x = 58 \/ In(x, 60, 63) -> ToStr(p, "dcsIgnore")
     [] In(x, 32, 47)  -> To(Collect(p, x), "dcsInter")
     [] In(x, 64, 126) -> ToStr(Hook(p, x), "dcsPass")
-    [] OTHER          -> [To(p, "unconstrained") EXCEPT !.sup = "either"]
+    [] OTHER          -> CancelDcs(p, x)
 
 DcsInter(p, x) ==
   CASE IsC0Exec(x) \/ x = 127 -> p
     [] In(x, 32, 47)  -> Collect(p, x)
     [] In(x, 48, 63)  -> ToStr(p, "dcsIgnore")
     [] In(x, 64, 126) -> ToStr(Hook(p, x), "dcsPass")
-    [] OTHER          -> [To(p, "unconstrained") EXCEPT !.sup = "either"]
+    [] OTHER          -> CancelDcs(p, x)
 
 DcsPass(p, x) == IF x = 127 THEN p ELSE Put(p, x)       \* C0, 20-7E and UTF-8 data are passed through
 DcsIgnore(p, x) == p
@@ -204,15 +231,15 @@ Osc(p, x) ==
   ELSE OscPut(p, x)
 
 (* "anywhere" transitions, then the current state's function.                *)
-(* A DCS cancelled by a non-ASCII scalar in its header is outside every      *)
-(* standard: from "unconstrained" nothing is prescribed until CAN/SUB/ESC.   *)
+(* ("unconstrained" is no longer entered: a non-ASCII scalar in a DCS header *)
+(* is followed relationally, see DcsHeadAlts.)                               *)
 (* Gap: the pseudo-symbol "silence longer than the Escape-key delay".  Only  *)
 (* a lone ESC (nothing received since it) is affected: it is reported as the *)
 (* Escape key and parsing resumes from ground (C08).                         *)
 Gap == -3
 
 Feed0(p, x) ==
-  IF x = 24 \/ x = 26 THEN [To(Emit(Exit(p), C0I(x)), "ground") EXCEPT !.sup = "no"]
+  IF x = 24 \/ x = 26 THEN [To(Emit(Exit(p), C0I(x)), "ground") EXCEPT !.sup = "no", !.ctx = ""]
   ELSE IF x = 27 THEN
      LET q0 == Exit(p)
          \* diagnostic marker (matches nothing): the ESC that ends an OSC whose payload is empty
@@ -221,8 +248,9 @@ Feed0(p, x) ==
      [Clear(q) EXCEPT !.st = "escape",
                       !.sup = IF p.st \in StringStates THEN "yes"
                               ELSE IF p.st \in DcsHeadStates \cup {"unconstrained"} THEN "either"
-                              ELSE IF p.st = "escape" /\ p.sup # "no" THEN "either"   \* ESC ESC \ after a string
-                              ELSE "no"]
+                              ELSE "no",        \* in particular ESC ESC \ after a string: the first ESC ended the
+                                                \* string and was itself cancelled, the second begins a sequence of its own
+                      !.ctx = IF p.st = "escape" /\ p.sup # "no" THEN "esc-esc-after-string" ELSE p.ctx]
   ELSE CASE p.st = "ground"    -> Ground(p, x)
          [] p.st = "escape"    -> Escape(p, x)
          [] p.st = "escInter"  -> EscInter(p, x)
@@ -254,11 +282,14 @@ AtEof(p) ==
   [p EXCEPT !.out = p.out \o [k \in 1..Len(q.out) |-> OptI(<<q.out[k]>>)] \o <<Item("eof")>>,
             !.st = "done"]
 
-(* The prescription is a relation: where the standards leave two behaviours  *)
-(* open that lead to different parser states, both are followed.  The only   *)
-(* such place: a non-ASCII scalar while a malformed control sequence is      *)
-(* being ignored may be ignored like the rest or may cancel the sequence.    *)
-FeedSet(p, x) == IF p.st = "csiIgnore" /\ x >= 128 THEN {p, Cancel(p, x)} ELSE {Feed(p, x)}
+(* The prescription is a relation: where the standards leave several         *)
+(* behaviours open that lead to different parser states, all are followed.   *)
+(* The places: a non-ASCII scalar while a malformed control sequence is      *)
+(* being ignored may be ignored like the rest or may cancel the sequence; a  *)
+(* non-ASCII scalar in the header of a device control string (DcsHeadAlts).  *)
+FeedSet(p, x) == IF p.st = "csiIgnore" /\ x >= 128 THEN {p, Cancel(p, x)}
+                 ELSE IF p.st \in DcsHeadStates /\ x >= 128 THEN {[q EXCEPT !.lone = FALSE] : q \in DcsHeadAlts(p, x)}
+                 ELSE {Feed(p, x)}
 
 RECURSIVE RunSet(_, _)
 RunSet(S, xs) == IF xs = <<>> THEN {AtEof(p) : p \in S}
@@ -315,7 +346,7 @@ MatchK(got, want) ==
   IF want = <<>> THEN got = <<>>
   ELSE LET w == Head(want) IN
        IF w.t = "mark" THEN
-            \/ (got # <<>> /\ Head(got) = EscI(<<>>, 92) /\ MatchK(Tail(got), Tail(want)))
+            \/ (w.tag = "after-empty-osc" /\ got # <<>> /\ Head(got) = EscI(<<>>, 92) /\ MatchK(Tail(got), Tail(want)))
             \/ MatchK(got, Tail(want))
        ELSE IF w.t = "opt" THEN
             \/ (got # <<>> /\ AnyEq(Head(got), w.alts) /\ MatchK(Tail(got), Tail(want)))
@@ -335,9 +366,24 @@ Diverge(got, want, mark) ==
        ELSE IF ItemEq(Head(got), w) THEN Diverge(Tail(got), Tail(want), "")
        ELSE <<w, Head(got), mark>>
 
-(* Once the oracle has been in "unconstrained" nothing later is prescribed   *)
-(* until the next CAN/SUB/ESC; the driver never generates such inputs for    *)
-(* the exact comparison (Constrained filters them).                          *)
+(* How many delivered items the greedy comparison gets through before it     *)
+(* diverges.  Where the prescription is a relation the rejection report      *)
+(* follows the alternative the delivery agrees with longest (BestOut).       *)
+RECURSIVE Depth(_, _, _)
+Depth(got, want, n) ==
+  IF want = <<>> \/ got = <<>> THEN n
+  ELSE LET w == Head(want) IN
+       IF w.t = "mark" THEN Depth(got, Tail(want), n)
+       ELSE IF w.t = "opt" THEN
+          IF AnyEq(Head(got), w.alts) THEN Depth(Tail(got), Tail(want), n + 1) ELSE Depth(got, Tail(want), n)
+       ELSE IF ItemEq(Head(got), w) THEN Depth(Tail(got), Tail(want), n + 1)
+       ELSE n
+BestOut(got, xs) ==
+  LET S == {p.out : p \in RunSet({Init0}, xs)} IN
+  CHOOSE o \in S : \A o2 \in S : Depth(got, o2, 0) <= Depth(got, o, 0)
+
+(* Kept for the trace specifications that call it: "unconstrained" is no     *)
+(* longer entered, so every input is constrained.                            *)
 RECURSIVE Constrained(_, _)
 Constrained(S, xs) == IF xs = <<>> THEN TRUE
                       ELSE LET T == UNION {FeedSet(p, Head(xs)) : p \in S} IN
